@@ -16,7 +16,7 @@ PID = "C12"
 # and Monotone / CurrentHighest are model-checked only in the two small MCCompRev_asis_*.cfg runs, where
 # they are expected to fail; with True they are invariants of every model run.  The verdict on the
 # real code never depends on it: the monitor always evaluates every formula.
-FIX_LATEST = False
+FIX_LATEST = True
 
 MON_FORMULAS = ["OnePerContent.Duplicate", "OnePerContent.Name", "OnePerContent.Lost", "Faithful.Spec", "Faithful.Edited",
                 "Monotone", "Monotone.ListedUnowned", "CurrentHighest.Missing", "CurrentHighest",
